@@ -626,6 +626,21 @@ func check(prop, tier string) int {
 		}
 	}
 
+	// one real episode written out as a trace (schedule + faults), for the reader of the evidence
+	{
+		out := filepath.Join(dir, "sample-trace.json")
+		runWorker(map[string]string{"VSIM_MODE": "explore", "VSIM_PROP": prop, "VSIM_SEED": fmt.Sprint(splitmix(seed, 0)), "VSIM_FROM": "3", "VSIM_COUNT": "1",
+			"VSIM_PARAMS": fmt.Sprintf(`{"tier":%q}`, tier), "VSIM_OUT": out, "VSIM_LOGS": "1"}, 2*time.Minute)
+		var r Result
+		if readJSON(out, &r) == nil {
+			for idx, lg := range r.Logs {
+				if len(lg) > 60 {
+					lg = append(lg[:60:60], fmt.Sprintf("... (%d more lines)", len(lg)-60))
+				}
+				tot.Samples = append(tot.Samples, map[string]interface{}{"episode_index": idx, "trace": lg})
+			}
+		}
+	}
 	wall := time.Since(t0).Seconds()
 	stateList := make([]string, 0, len(states))
 	for s := range states {
